@@ -25,12 +25,17 @@ from harness.lib.core import VERIF, source_sha
 from harness.props import c02_nm as nm
 
 LEVEL = 'proof'
-IMPORTS = 'Base.PyData Base.Expr Base.Interp Base.Stmts C02.Model C02.CondPrint C02.Spec C02.Check'
+IMPORTS = 'Base.PyData Base.Expr Base.Interp Base.Stmts C02.Model C02.CondPrint C02.Spec C02.Remap C02.IndexDiff C02.Check'
 
 TAGS = {
     1: 'lcs.diff differs from the model',
     2: 'nmtran_assignment_string differs from the model print_stmt',
     4: 'printed condition differs from the model printed_cond',
+    5: 'new_compartmental_map differs from the model', 6: 'create_compartment_remap differs from the model',
+    7: '_index_statements_diff differs from the model',
+    16: 'the regrouped diff does not spell the new / old statements',
+    19: '_index_statements_diff raised although the index covers the old statements',
+    15: 'remap does not send the old number of a surviving compartment to its new number',
     11: 'printed statement does not mean what the assignment means (guard true)',
     12: 'diff script does not spell old/new',
     13: 'diff keeps fewer elements than the longest common subsequence',
@@ -50,14 +55,23 @@ TAGS = {
     34: 'F is not A(obs)/S(obs) of the NM observation compartment',
     35: '$ERROR code differs from the statements after the ODE system',
     36: 'S/F/ALAG/R/D/A index is not the NM compartment number',
+    28: 'a PK parameter the ADVAN/TRANS requires is never assigned in $PK',
+    29: 'F is scaled by S<k> of another compartment than the one it reads ($MODEL-defined model)',
+    43: 're-read model: F differs',
+    48: 'the CMT value of dose records is not the number of the dosing compartment',
+    49: 'dose records carry the CMT of the central compartment although the model doses another compartment',
+    44: 'the PK parameters defined are those of another TRANS than the one $SUBROUTINE declares',
+    47: 'all PK parameter names of the TRANS are assigned but the model rates use other symbols',
+    46: 'a volume parameter was given the literal value 1 and every 1 of the model replaced by it',
+    30: 'a general nonlinear ADVAN (6, 8, 9, 13, ...) without $DES',
     37: 're-read model: statements before ODE differ', 38: 're-read model: compartmental system differs',
     39: 're-read model: statements after ODE differ', 40: 'generated code cannot be read back',
     41: 'parameters / random variables of the re-read model differ',
     42: 'generated code is not readable abbreviated code',
 }
-CORR = {1, 2, 4}
-ORACLE = {11, 12, 13, 14, 17, 18, 31, 32, 33, 34, 35, 36, 37, 38, 39, 40, 41, 42}
-KNOWN_CLASS = {21: 'C02-PW-OVERLAP', 22: 'C02-PW-SELFREF', 23: 'C02-PW-ZERO-ELSE', 24: 'C02-COND-NARY',
+CORR = {1, 2, 4, 5, 6, 7}
+ORACLE = {11, 12, 13, 14, 15, 16, 19, 17, 18, 31, 32, 33, 34, 35, 36, 37, 38, 39, 40, 41, 42, 43, 48}
+KNOWN_CLASS = {49: 'C02-CMT-DOSE-REMAP', 21: 'C02-PW-OVERLAP', 22: 'C02-PW-SELFREF', 23: 'C02-PW-ZERO-ELSE', 24: 'C02-COND-NARY',
                25: 'C02-COND-PREC', 26: 'C02-PRINT-FN2', 27: 'C02-PRINT-INVFN'}
 
 
@@ -307,7 +321,102 @@ def observe_cond(spec, translate=None, perturb=None):
     return f'(mkC {cterm} {impl} {envs})', info
 
 
+# =================================================================== stream 5: compartment renumbering
+CNAMES = ['DEPOT', 'CENTRAL', 'PERIPHERAL1', 'PERIPHERAL2', 'TRANSIT1', 'TRANSIT2', 'EFFECT', 'METABOLITE', 'OUTPUT']
+
+
+def gen_remap(rng):
+    old = rng.sample(CNAMES[:-1], rng.choice([1, 2, 3, 4, 5]))
+    new = list(old)
+    for _ in range(rng.choice([0, 1, 1, 2])):
+        if rng.random() < 0.5 and len(new) > 1:
+            del new[rng.randrange(len(new))]
+        else:
+            cand = [c for c in CNAMES[:-1] if c not in new]
+            if cand:
+                new.insert(rng.randrange(len(new) + 1), rng.choice(cand))
+    if rng.random() < 0.3:
+        rng.shuffle(new)
+    oldmap = {n: i for i, n in enumerate(old, start=1)}
+    if rng.random() < 0.5:          # pk_param_conversion adds OUTPUT as the last "compartment" of both maps
+        oldmap['OUTPUT'] = len(oldmap) + 1
+        new = new + ['OUTPUT']
+    if rng.random() < 0.08 and len(oldmap) >= 2:      # malformed: two names with the same number
+        k = rng.choice(list(oldmap))
+        oldmap[k] = rng.choice([v for kk, v in oldmap.items() if kk != k])
+    return {'kind': 'remap', 'names': new, 'oldmap': [[k, v] for k, v in oldmap.items()]}
+
+
+def observe_remap(spec, funcs=None, perturb=None):
+    if funcs is None:
+        from pharmpy.model.external.nonmem.update import create_compartment_remap, new_compartmental_map
+        funcs = (new_compartmental_map, create_compartment_remap)
+
+    class CS:
+        compartment_names = list(spec['names'])
+    newmap = funcs[0](CS())
+    oldmap = {k: v for k, v in spec['oldmap']}
+    remap = funcs[1](dict(oldmap), dict(newmap))
+    if perturb:
+        remap = perturb(remap)
+    names = ct.Names()
+    for n in CNAMES:
+        names.get(n)
+    cm = lambda d: ct.lst([ct.pair(names.p(k), ct.nat(v)) for k, v in d.items()])
+    term = (f"(mkR {ct.lst([names.p(n) for n in spec['names']])} {cm(oldmap)} {cm(newmap)} "
+            + ct.lst([ct.pair(ct.nat(k), ct.nat(v)) for k, v in remap.items()]) + ")")
+    return term, {'n_old': len(oldmap), 'n_new': len(newmap)}
+
+
+# =================================================================== stream 6: _index_statements_diff
+def gen_isd(rng):
+    spec = gen_lcs(rng)
+    old, new = spec['old'], spec['new']
+    from pharmpy.internals.sequence.lcs import diff
+    script = [[o, v] for o, v in diff(list(old), list(new))]
+    if rng.random() < 0.15:                      # an arbitrary script, not one diff would produce
+        script = [[rng.choice([0, 1, -1]), rng.randrange(4)] for _ in range(rng.randrange(8))]
+        old = [v for o, v in script if o != 1]
+    # a partition of the old statements into groups, each mapped to a node span
+    index, si, ni = [], 0, rng.randrange(3)
+    while si < len(old):
+        k = min(len(old) - si, rng.choice([1, 1, 1, 2, 3]))
+        nj = ni + rng.choice([1, 1, 2])
+        index.append([ni, nj, si, si + k])
+        si += k
+        ni = nj + rng.choice([0, 0, 1])
+    r = rng.random()
+    if r < 0.06 and index:
+        index.pop()                              # malformed: too few entries (assert fails)
+    elif r < 0.12 and index:
+        index[-1][3] += 1                        # malformed: the last group expects one statement more
+    elif r < 0.16:
+        index.append([ni, ni + 1, si, si + 1])   # one entry too many: harmless
+    return {'kind': 'isd', 'last': index[0][0] if index else rng.randrange(3), 'index': index, 'script': script}
+
+
+def observe_isd(spec, func=None, perturb=None):
+    if func is None:
+        from pharmpy.model.external.nonmem.records.code_record import _index_statements_diff as func
+    script = [(o, v) for o, v in spec['script']]
+    try:
+        obs = [(op, list(st), ni, nj) for op, st, ni, nj in func(spec['last'], [tuple(e) for e in spec['index']], iter(script))]
+        if perturb:
+            obs = perturb(obs)
+    except (AssertionError, RuntimeError, StopIteration, IndexError) as e:
+        obs = None
+    natl = lambda l: ct.lst([ct.nat(x) for x in l])
+    it = ct.lst([ct.tup(*[ct.nat(x) for x in e]) for e in spec['index']])
+    sc_ = ct.lst([ct.pair(OPS[o], ct.nat(v)) for o, v in script])
+    ob = 'None' if obs is None else '(Some ' + ct.lst([ct.tup(OPS[o], natl(st), ct.nat(ni), ct.nat(nj)) for o, st, ni, nj in obs]) + ')'
+    return f"(mkI {ct.nat(spec['last'])} {it} {sc_} {ob})", {'groups': len(spec['index']), 'raised': obs is None}
+
+
 # =================================================================== classification
+def _slim(info):
+    return {k: v for k, v in info.items() if k != 'code'} if isinstance(info, dict) else info
+
+
 def classify(ctx, spec, tags, info):
     tags = set(tags)
     status = 'ok'
@@ -321,8 +430,20 @@ def classify(ctx, spec, tags, info):
         else:
             ctx.violation(TAGS[t], {'spec': spec, 'tags': sorted(tags), 'tag_meaning': TAGS[t], 'info': info})
             status = 'violation'
-    for t in sorted(tags & ORACLE):
-        ctx.violation(TAGS[t], {'spec': spec, 'tags': sorted(tags), 'tag_meaning': TAGS[t], 'info': info})
+    excused = set()
+    for t in sorted(tags & set(HIST_CLASS)):
+        fid, explains = HIST_CLASS[t]
+        if ctx.open_finding(fid):
+            excused |= explains
+            ctx.coverage.setdefault('known_hits', {}).setdefault(fid, 0)
+            ctx.coverage['known_hits'][fid] += 1
+            if status == 'ok':
+                status = 'known'
+        else:
+            ctx.violation(TAGS[t], {'spec': spec, 'tags': sorted(tags), 'tag_meaning': TAGS[t], 'info': _slim(info)})
+            status = 'violation'
+    for t in sorted((tags & ORACLE) - excused):
+        ctx.violation(TAGS[t], {'spec': spec, 'tags': sorted(tags), 'tag_meaning': TAGS[t], 'info': _slim(info)})
         status = 'violation'
     if (tags & CORR) and status != 'violation':
         ctx.broken.append('correspondence C02 model vs implementation: ' + ', '.join(TAGS[t] for t in sorted(tags & CORR))
@@ -336,6 +457,8 @@ STREAMS = {
     'lcs': (observe_lcs, 'lcase', 'verdict_lcs', 250),
     'print': (observe_print, 'pcase', 'verdict_print', 120),
     'cond': (observe_cond, 'ccase', 'verdict_cond', 200),
+    'remap': (observe_remap, 'rcase', 'verdict_remap', 300),
+    'isd': (observe_isd, 'icase', 'verdict_isd', 300),
 }
 
 
@@ -349,6 +472,10 @@ def run_stream(ctx, kind, specs, label, quiet=False, **kw):
         except (sc.Unconvertible, ZeroDivisionError, sympy.SympifyError, TypeError, RecursionError, RuntimeError, SkipCase) as e:
             key = type(e).__name__ + (':' + str(e)[:40] if isinstance(e, (SkipCase, sc.Unconvertible)) else '')
             skipped[key] = skipped.get(key, 0) + 1
+            continue
+        except CodeUnreadable as e:
+            if not quiet:
+                ctx.violation(TAGS[42], {'spec': spec, 'tags': [42], 'tag_meaning': TAGS[42], 'error': str(e)})
             continue
         terms.append(term)
         kept.append(spec)
@@ -364,11 +491,16 @@ def run_stream(ctx, kind, specs, label, quiet=False, **kw):
     return kept, verdicts, infos, stats
 
 
-class SkipCase(Exception):
-    pass
+from harness.props import c02_hist as hist   # noqa: E402
+from harness.props.c02_hist import CodeUnreadable, SkipCase   # noqa: E402
 
-
-HSTREAM = None   # filled in by the history part below
+HSTREAM = (hist.observe_hist, 'hcase', 'verdict_hist', 6)
+# explanation tag -> (finding id, oracle tags it explains)
+HIST_CLASS = {28: ('C02-TRANS1-MISSING-K', {32, 38}), 29: ('C02-DES-SCALE-STALE', {34, 36, 43}),
+              30: ('C02-SOLVER-NO-DES', {33, 40}),
+              44: ('C02-TRANS-NOT-WRITTEN', {32, 38}),
+              47: ('C02-RATIO-NAME-TAKEN', {32, 38}),
+              46: ('C02-RATIO-DENOM-ONE', {31, 32, 34, 35, 36, 37, 38, 39, 43})}
 
 
 # =================================================================== driver
@@ -428,6 +560,13 @@ def run(ctx):
     if not ok:
         return
     quick = ctx.tier == 'quick'
+    if not quick:
+        from harness.lib import core
+        rc, out = core.sh(['coqchk', '-silent', '-o', '-Q', str(core.THEORIES), 'PV', 'PV.C02.Properties', 'PV.C02.Refuted'],
+                          timeout=1500, cwd=core.COQ)
+        ctx.coverage['coqchk'] = 'ok' if rc == 0 else out[-400:]
+        if rc != 0:
+            ctx.broken.append('coqchk failed on PV.C02.Properties / Refuted: ' + out[-300:])
     finding_probes(ctx)
     reg = sorted((VERIF / 'regress' / 'C02').glob('*.json'))
     regspecs = [json.loads(p.read_text()) for p in reg]
@@ -435,10 +574,14 @@ def run(ctx):
     evaluations = 0
     distinct = set()
     samples = []
+    # one independent generator per stream, all derived from ctx.rng (VERIF_SEED) in a fixed order
+    rngs = {k: random.Random(ctx.rng.getrandbits(64)) for k in ('lcs', 'print', 'cond', 'hist', 'remap', 'isd')}
+    ctx.stream_rngs = rngs
     plan = [('lcs', gen_lcs, 600 if quick else 12000), ('print', gen_print, 500 if quick else 8000),
-            ('cond', gen_cond, 300 if quick else 4000)]
+            ('cond', gen_cond, 300 if quick else 4000), ('remap', gen_remap, 300 if quick else 3000),
+            ('isd', gen_isd, 400 if quick else 5000)]
     for kind, gen, n in plan:
-        specs = [s for s in regspecs if spec_kind(s) == kind] + [gen(ctx.rng) for _ in range(n)]
+        specs = [s for s in regspecs if spec_kind(s) == kind] + [gen(rngs[kind]) for _ in range(n)]
         kept, verdicts, infos, stats = run_stream(ctx, kind, specs, kind)
         evaluations += len(kept)
         ctx.coverage.setdefault('case_status', {})[kind] = stats
@@ -452,6 +595,14 @@ def run(ctx):
                              'guard_false(201 disjoint,202 self_free,203 zero_fresh,207 printable)': hist_counts(verdicts, 200, 210),
                              'printer_exceptions': _hist([i['exc'] for i in infos if i['exc']]),
                              'inconclusive': hist_counts(verdicts, 1000, 2000)}
+        elif kind == 'isd':
+            distinct |= {json.dumps([s['index'], s['script']]) for s in kept if len(s['index']) >= 2}
+            dist['isd'] = {'cases': len(kept), 'index_not_covering_old(209)': sum(1 for v in verdicts if 209 in v),
+                           'generator_raised': sum(1 for i in infos if i['raised']), 'groups_hist': _hist([i['groups'] for i in infos])}
+        elif kind == 'remap':
+            distinct |= {json.dumps([s['names'], s['oldmap']]) for s in kept if s['names'] != [k for k, _ in s['oldmap']]}
+            dist['remap'] = {'cases': len(kept), 'old_numbers_not_distinct': sum(1 for v in verdicts if 208 in v),
+                             'n_old_hist': _hist([i['n_old'] for i in infos])}
         else:
             distinct |= {s['cond'] for s in kept}
             dist['cond'] = {'cases': len(kept), 'guard_false(205 binary,206 prec)': hist_counts(verdicts, 200, 210),
@@ -478,15 +629,78 @@ def _hist(xs):
 
 
 def run_histories(ctx, regspecs, dist, samples):
-    pass
+    quick = ctx.tier == 'quick'
+    n = 80 if quick else 1200
+    rng = ctx.stream_rngs['hist']
+    specs = ([s for s in regspecs if spec_kind(s) == 'hist'] + hist.directed_specs()
+             + [hist.gen_hist(rng, 4) for _ in range(n)])
+    kept, verdicts, infos, stats = run_stream(ctx, 'hist', specs, 'hist')
+    ctx.coverage.setdefault('case_status', {})['hist'] = stats
+    ctx.coverage['hist_evaluations'] = len(kept)
+    ctx.coverage['hist_distinct'] = len({i['code'] for i in infos if i['applied']})
+    steps_ok, steps_failed = {}, {}
+    for i in infos:
+        for f in i['applied']:
+            steps_ok[f] = steps_ok.get(f, 0) + 1
+        for f, e in i['failed']:
+            steps_failed[f + ':' + e] = steps_failed.get(f + ':' + e, 0) + 1
+    dist['hist'] = {
+        'cases': len(kept), 'start_models': _hist([i['start'] for i in infos]),
+        'applied_length_hist': _hist([len(i['applied']) for i in infos]),
+        'advan_trans': _hist([f"ADVAN{i['advan']} TRANS{i['trans']}" for i in infos]),
+        'ncomp_hist': _hist([i['ncomp'] for i in infos]),
+        'steps_applied': dict(sorted(steps_ok.items())), 'steps_refused': dict(sorted(steps_failed.items())),
+        'with_des': sum(1 for i in infos if i['n_des']), 'reread_failed': sum(1 for i in infos if 'reread_exc' in i),
+        'explained(28 missing K,29 stale S,30 no $DES)': hist_counts(verdicts, 28, 31), 'explained(44 trans not written,46 ratio denom one)': hist_counts(verdicts, 44, 48),
+        'inconclusive': hist_counts(verdicts, 1000, 2000),
+    }
+    samples += [{'spec': s, 'tags': v, 'applied': i['applied'], 'advan': i['advan']} for s, v, i in list(zip(kept, verdicts, infos))[:3]]
 
 
-def run_translator(ctx):
-    pass
+def run_translator(ctx, update_py=None, label='gen'):
+    """Regenerate PkConv.v from /repo's update.py, compile it and the obligations against it."""
+    import shutil
+    from harness.lib import core
+    from harness.props import c02_translate as tr
+    gen = ctx.rundir / label
+    gen.mkdir(parents=True, exist_ok=True)
+    src = update_py or (core.REPO / 'src/pharmpy/model/external/nonmem/update.py')
+    names = ['trans_choice_valid', 'trans_choice_none_valid', 'pk_rename_lands', 'pk_rename_consistent',
+             'domain_size', 'rename_example_3_4']
+    ctx.obligations += len(names)
+    try:
+        sha = tr.translate(src, gen / 'PkConv.v')
+    except tr.TranslatorRefused as e:
+        ctx.broken.append(str(e))
+        return False
+    ctx.coverage['translator_sha'] = sha
+    shutil.copy(VERIF / 'harness' / 'props' / 'c02_obligations.v', gen / 'PkConvObligations.v')
+    problems = core.grep_gate([gen / 'PkConv.v', gen / 'PkConvObligations.v'])
+    if problems:
+        ctx.broken.append('grep-gate (generated): ' + '; '.join(problems))
+        return False
+    extra = [(gen, 'C02gen')]
+    for f in ('PkConv.v', 'PkConvObligations.v'):
+        rc, out = core.sh(['coqc', '-Q', str(core.THEORIES), 'PV', '-Q', str(gen), 'C02gen', str(gen / f)], timeout=600, cwd=gen)
+        if rc != 0:
+            m = re.search(r'File "([^"]+)", line (\d+).*?\nError:(.*?)(?:\n\n|\Z)', out, flags=re.S)
+            where = f'{m.group(1)}:{m.group(2)}:{m.group(3).strip()[:300]}' if m else out[-400:]
+            ctx.broken.append('regenerated obligation no longer holds (pk_param_conversion / new_advan_trans changed): ' + where)
+            return False
+    f = gen / 'assum.v'
+    f.write_text('From C02gen Require Import PkConvObligations.\n' + ''.join(f'Print Assumptions {n}.\n' for n in names))
+    rc, out = core.coqc_file(f, extra_q=extra)
+    closed = out.count('Closed under the global context')
+    if rc != 0 or closed != len(names):
+        ctx.broken.append('Print Assumptions of regenerated obligations: ' + out[-300:])
+        return False
+    ctx.discharged += len(names)
+    ctx.coverage.setdefault('theorems', []).extend('C02gen.PkConvObligations.' + n for n in names)
+    return True
 
 
 def replay(ctx, rep):
-    spec = rep['spec']
+    spec = rep.get('spec', rep)
     kind = spec_kind(spec)
     kept, verdicts, infos, _ = run_stream(ctx, kind, [spec], 'replay', quiet=True)
     if not verdicts:
